@@ -23,6 +23,21 @@ func (fr *Frame) call(in ssa.Instruction, c *ssa.CallCommon, st *State, pc Term)
 		return res
 	}
 	for _, cs := range fr.contract.CallSites {
+		if cs.Clause.Kind == "callset" && calleeMatches(cs.Callee, fr.lastCallee) && (cs.Ordinal == 0 || cs.Ordinal == fr.lastOrd) {
+			fr.csMatched[cs] = true
+			env := fr.specEnv(st, pc)
+			env.old = pre
+			vars := map[string]TV{}
+			sig := c.Signature()
+			for i, r := range res {
+				vars[fmt.Sprintf("result%d", i)] = TV{r, sig.Results().At(i).Type()}
+			}
+			if len(res) == 1 {
+				vars["result"] = TV{res[0], sig.Results().At(0).Type()}
+			}
+			fr.vc.ghostSet(env.with(vars), st, cs)
+			continue
+		}
 		if cs.Clause.Kind != "callassume" {
 			continue
 		}
@@ -53,6 +68,27 @@ func (fr *Frame) call(in ssa.Instruction, c *ssa.CallCommon, st *State, pc Term)
 		}
 	}
 	return res
+}
+
+// ghostSet executes a set clause: the scalar ghost named by cs.Target takes
+// the value of the clause's expression in env.
+func (vc *VC) ghostSet(env *Env, st *State, cs *CallSiteSpec) {
+	g := vc.specs.ghost(cs.Target)
+	if g == nil || g.IsMap {
+		vc.specError(cs.Clause, fmt.Errorf("set: %q is not a scalar ghost", cs.Target))
+		return
+	}
+	v, err := env.eval(cs.Clause.E)
+	if err != nil {
+		vc.specError(cs.Clause, err)
+		return
+	}
+	if v.T.Sort != g.sort() {
+		vc.specError(cs.Clause, fmt.Errorf("set: ghost %s has sort %s, expression has sort %s", g.Name, g.sort(), v.T.Sort))
+		return
+	}
+	vc.heap(st, g.heapName(), g.sort()) // registers the heap
+	st.heaps[g.heapName()] = vc.def("gs:"+g.Name, v.T)
 }
 
 func (fr *Frame) callInner(in ssa.Instruction, c *ssa.CallCommon, st *State, pc Term) []Term {
@@ -211,7 +247,7 @@ func (fr *Frame) callInner(in ssa.Instruction, c *ssa.CallCommon, st *State, pc 
 		// heaps the callee is known to write are havoced even when they are
 		// protected from unknown callees (private / immutable types)
 		for _, h := range eff.sorted() {
-			if vc.specs.isPrivateHeap(h) || vc.specs.isImmutableHeap(h) {
+			if vc.specs.isPrivateHeap(h) || vc.specs.isImmutableHeap(h) || vc.specs.isSetGhostHeap(h) {
 				vc.havocHeapKeepOld(st, preTop, h, pc)
 			}
 		}
@@ -475,6 +511,7 @@ func (fr *Frame) inline(f *ssa.Function, ci *closureInfo, args []Term, st *State
 func (fr *Frame) specEnv(st *State, pc Term) *Env {
 	vc := fr.vc
 	env := &Env{vc: vc, vars: map[string]TV{}, st: st, old: fr.entry, fr: fr}
+	env.capOld = len(fr.fn.FreeVars) > 0
 	if fr.fn.Pkg != nil {
 		env.pkg = fr.fn.Pkg.Pkg
 		env.pkgKey = shortPkg(fr.fn.Pkg.Pkg.Path())
@@ -505,6 +542,7 @@ func (fr *Frame) modularCall(fc *FuncContract, callee *ssa.Function, c *ssa.Call
 		// clauses of a closure contract may name captured variables: they are
 		// the caller's own locals
 		env.fr = fr
+		env.capOld = true
 	}
 	// parameter names
 	names := calleeParamNames(fc, callee, c, sig)
@@ -542,7 +580,7 @@ func (fr *Frame) modularCall(fc *FuncContract, callee *ssa.Function, c *ssa.Call
 		if eff.top {
 			vc.havocAllHeaps(st)
 			for _, h := range eff.sorted() {
-				if vc.specs.isPrivateHeap(h) || vc.specs.isImmutableHeap(h) {
+				if vc.specs.isPrivateHeap(h) || vc.specs.isImmutableHeap(h) || vc.specs.isSetGhostHeap(h) {
 					vc.havocHeapKeepOld(st, pre, h, pc)
 				}
 			}
@@ -555,6 +593,16 @@ func (fr *Frame) modularCall(fc *FuncContract, callee *ssa.Function, c *ssa.Call
 	} else {
 		vc.havocAllHeaps(st)
 	}
+	// ghosts the callee assigns with set clauses change during the call
+	for _, n := range fc.setGhosts() {
+		if g := vc.specs.ghost(n); g != nil && !g.IsMap {
+			vc.heap(st, g.heapName(), g.sort())
+			vc.havocHeap(st, g.heapName())
+		}
+	}
+	if len(fc.Allocates) > 0 {
+		vc.havocNewObjects(st, pre, fc, pc)
+	}
 	if !fc.Pure {
 		if callee == nil || fr.mayRunLocalClosure(c) || fr.closures[c.Value] != nil {
 			fr.havocCaptured(st, pc)
@@ -566,6 +614,7 @@ func (fr *Frame) modularCall(fc *FuncContract, callee *ssa.Function, c *ssa.Call
 	post := &Env{vc: vc, vars: map[string]TV{}, st: st, old: pre, pkg: env.pkg, pkgKey: fc.Pkg}
 	if isClosure {
 		post.fr = fr
+		post.capOld = true
 	}
 	for k, v := range env.vars {
 		post.vars[k] = v
@@ -598,15 +647,11 @@ func (fr *Frame) modularCall(fc *FuncContract, callee *ssa.Function, c *ssa.Call
 	if nres == 1 {
 		post.vars["result"] = TV{res[0], sig.Results().At(0).Type()}
 	}
+	vc.atCalleeEnsures = shortCallee(fc.Name)
 	for _, e := range fc.Ensures {
-		if !isClosure && mentionsCalleeLocal(e.E, callee, post) {
-			// a postcondition that talks about a local variable of the callee
-			// is internal: it is proved at the callee's returns (where the
-			// local is live) and says nothing a caller could use
-			continue
-		}
 		vc.assumeClause(pc, post, e)
 	}
+	vc.atCalleeEnsures = ""
 	for _, fname := range fc.Fresh {
 		if tv, ok := post.vars[fname]; ok {
 			ref := tv.T
@@ -654,8 +699,62 @@ func calleeParamNames(fc *FuncContract, callee *ssa.Function, c *ssa.CallCommon,
 	return names
 }
 
+// havocNewObjects implements the "allocates" directive: the call creates and
+// initialises new objects. The heaps that hold objects of the listed struct
+// types ("*": every heap indexed by references) get new versions that agree
+// with the old ones on every object that existed before the call; only what
+// lies at or above the old watermark is unconstrained (to be described by the
+// callee's ensures clauses).
+func (vc *VC) havocNewObjects(st, pre *State, fc *FuncContract, pc Term) {
+	all := false
+	var prefixes []string
+	for _, a := range fc.Allocates {
+		if a == "*" {
+			all = true
+			continue
+		}
+		if !strings.Contains(a, "/") && fc.Pkg != "" {
+			a = fc.Pkg + "." + a
+		}
+		prefixes = append(prefixes, "H:"+a+".")
+	}
+	if st.wm.S == pre.wm.S {
+		vc.bumpWatermark(st)
+	}
+	for _, h := range vc.sortedHeapNames() {
+		info := vc.heapInfo[h]
+		if info == nil || !hasPrefix(info.Sort, "(Array Int ") || vc.errGlobals[h] || strings.HasPrefix(h, "|GH:") || strings.HasPrefix(h, "|G:") {
+			continue
+		}
+		match := all
+		for _, p := range prefixes {
+			if strings.HasPrefix(strings.Trim(h, "|"), p) {
+				match = true
+			}
+		}
+		if !match {
+			continue
+		}
+		old := vc.heap(pre, h, info.Sort)
+		if cur := vc.heap(st, h, info.Sort); cur.S != old.S {
+			// already given a new version by the write set: leave it
+			continue
+		}
+		vc.havocHeap(st, h)
+		vc.assume(pc, vc.frameFormula(st.heaps[h], old, h, nil, pre.wm))
+		vc.recordFrame(st.heaps[h], old, pre.wm, pc, nil)
+	}
+}
+
 func (vc *VC) specError(cl *Clause, err error) {
 	msg := fmt.Sprintf("contract error in %q: %v", cl.Src, err)
+	if strings.Contains(err.Error(), "unknown identifier") && vc.atCalleeEnsures != "" {
+		// An ensures clause of a callee that names one of the callee's own
+		// locals cannot be stated at a call site: the caller simply does not
+		// learn it (fewer assumptions: sound).
+		vc.warn("%s: clause of callee %s not usable at call sites (%v): %s", funcName(vc.fn), vc.atCalleeEnsures, err, cl.Src)
+		return
+	}
 	if strings.Contains(err.Error(), "unknown identifier") {
 		// The clause names a variable that no longer exists in the function:
 		// the proof no longer covers the code. Reported as a failed binding
@@ -911,11 +1010,26 @@ func (k rangeKey) Parent() *ssa.Function         { return k.r.Parent() }
 func (k rangeKey) Referrers() *[]ssa.Instruction { return nil }
 func (k rangeKey) Pos() token.Pos                { return k.r.Pos() }
 
+// rangeCountKey keys the ghost number of keys a map range has produced so
+// far; rangeHas0Key the key set of the map when the range started.
+type rangeCountKey struct{ rangeKey }
+
+func (k rangeCountKey) Name() string   { return "visitedcount:" + k.r.Name() }
+func (k rangeCountKey) String() string { return k.Name() }
+
+type rangeHas0Key struct{ rangeKey }
+
+func (k rangeHas0Key) Name() string   { return "rangekeys0:" + k.r.Name() }
+func (k rangeHas0Key) String() string { return k.Name() }
+
 func (fr *Frame) rangeInit(in *ssa.Range, st *State, pc Term) {
 	vc := fr.vc
 	if mt, ok := in.X.Type().Underlying().(*types.Map); ok {
 		ks := vc.sortOf(mt.Key())
 		st.cells[rangeKey{in}] = Term{fmt.Sprintf("((as const %s) false)", arraySort(ks, SBool)), arraySort(ks, SBool)}
+		st.cells[rangeCountKey{rangeKey{in}}] = tZero
+		has, _, _, _, _ := fr.mapHeaps(st, in.X.Type())
+		st.cells[rangeHas0Key{rangeKey{in}}] = vc.def("rangekeys0", sel(has, fr.val(in.X)))
 		fr.vals[in] = fr.val(in.X)
 		return
 	}
@@ -952,24 +1066,41 @@ func (fr *Frame) next(in *ssa.Next, st *State, pc Term) {
 	mt := rng.X.Type()
 	m := fr.val(rng.X)
 	mu := mt.Underlying().(*types.Map)
-	has, val, _, ks, _ := fr.mapHeaps(st, mt)
+	has, val, ln, ks, _ := fr.mapHeaps(st, mt)
 	visited, live := st.cells[key]
 	if !live {
 		visited = vc.fresh("visited", arraySort(ks, SBool))
 	}
+	count, cntLive := st.cells[rangeCountKey{key}]
+	has0, has0Live := st.cells[rangeHas0Key{key}]
 	okT := vc.fresh(fr.name(in)+":ok", SBool)
 	k := fr.freshTyped(fr.name(in)+":k", mu.Key(), st, pc)
 	isNil := eq(m, tZero)
 	vc.assume(pc, implies(okT, and(not(isNil), sel(sel(has, m), k), not(sel(visited, k)))))
 	qk := "(forall ((qk " + ks + ")) (=> (select (select " + has.S + " " + m.S + ") qk) (select " + visited.S + " qk)))"
 	vc.assume(pc, implies(not(okT), or(isNil, Term{qk, SBool})))
+	// (extensionality, stated for the solver) an exhausted range whose
+	// produced keys are all keys of the map has produced exactly its key set
+	qv := "(forall ((qk " + ks + ")) (=> (select " + visited.S + " qk) (select (select " + has.S + " " + m.S + ") qk)))"
+	vc.assume(pc, implies(and(not(okT), not(isNil), Term{qv, SBool}), eq(visited, sel(has, m))))
 	// a map of positive length holds at least one key
-	_, _, lnH, _, _ := fr.mapHeaps(st, mt)
 	wk := fr.freshTyped(fr.name(in)+":somekey", mu.Key(), st, pc)
-	vc.assume(pc, implies(and(not(isNil), lt(tZero, sel(lnH, m))), sel(sel(has, m), wk)))
+	vc.assume(pc, implies(and(not(isNil), lt(tZero, sel(ln, m))), sel(sel(has, m), wk)))
 	v := vc.def(fr.name(in)+":v", sel(sel(val, m), k))
 	vc.assume(pc, implies(okT, vc.typeFacts(v, mu.Elem(), st.wm)))
 	st.cells[key] = vc.def("visited", ite(okT, store(visited, k, tTrue), visited))
+	// a map that holds a key is not empty; as long as the key set is the one
+	// the range started with, every key is produced exactly once: the number
+	// of keys produced so far is below len(m), and equals it when the range
+	// is exhausted
+	vc.assume(pc, implies(okT, le(intLit(1), sel(ln, m))))
+	if cntLive && has0Live {
+		same := eq(sel(has, m), has0)
+		vc.assume(pc, le(tZero, count))
+		vc.assume(pc, implies(and(same, okT), lt(count, sel(ln, m))))
+		vc.assume(pc, implies(and(same, not(okT), not(isNil)), eq(count, sel(ln, m))))
+		st.cells[rangeCountKey{key}] = vc.def("visitedcount", ite(okT, add(count, intLit(1)), count))
+	}
 	fr.tuples[in] = []Term{okT, k, v}
 }
 
@@ -1186,81 +1317,4 @@ func (fr *Frame) inLoop(b *ssa.BasicBlock) bool {
 		}
 	}
 	return false
-}
-
-// mentionsCalleeLocal reports whether a contract expression uses, as a free
-// identifier that the call environment does not bind, the name of a local
-// variable of the callee.
-func mentionsCalleeLocal(x Expr, callee *ssa.Function, env *Env) bool {
-	if callee == nil {
-		return false
-	}
-	locals := map[string]bool{}
-	for _, a := range callee.Locals {
-		if a.Comment != "" {
-			locals[a.Comment] = true
-		}
-	}
-	for _, p := range callee.Params {
-		delete(locals, p.Name())
-	}
-	if len(locals) == 0 {
-		return false
-	}
-	found := false
-	var walk func(x Expr, bound map[string]bool)
-	walk = func(x Expr, bound map[string]bool) {
-		if found || x == nil {
-			return
-		}
-		switch x := x.(type) {
-		case *EIdent:
-			if _, ok := env.vars[x.Name]; !ok && !bound[x.Name] && locals[x.Name] {
-				found = true
-			}
-		case *EUn:
-			walk(x.X, bound)
-		case *EBin:
-			walk(x.X, bound)
-			walk(x.Y, bound)
-		case *EField:
-			walk(x.X, bound)
-		case *EIndex:
-			walk(x.X, bound)
-			walk(x.I, bound)
-		case *ESlice:
-			walk(x.X, bound)
-			if x.Lo != nil {
-				walk(x.Lo, bound)
-			}
-			if x.Hi != nil {
-				walk(x.Hi, bound)
-			}
-		case *ECall:
-			for _, a := range x.Args {
-				walk(a, bound)
-			}
-		case *EMethod:
-			walk(x.X, bound)
-			for _, a := range x.Args {
-				walk(a, bound)
-			}
-		case *EQuant:
-			nb := map[string]bool{x.Var: true}
-			for k := range bound {
-				nb[k] = true
-			}
-			if x.Lo != nil {
-				walk(x.Lo, nb)
-				walk(x.Hi, nb)
-			}
-			walk(x.Body, nb)
-		case *ECond:
-			walk(x.C, bound)
-			walk(x.A, bound)
-			walk(x.B, bound)
-		}
-	}
-	walk(x, map[string]bool{})
-	return found
 }
